@@ -48,9 +48,28 @@ class UnitResult:
         self.raw_errors = []
         self.gen_path = ''
         self.verified_fns = 0
+        # True when a tooling problem concerns the unit as a whole (it did not compile, a canary / vacuity probe misbehaved, no output);
+        # False when every tooling message is about specific blocks (lost anchors, blocks left out, hints that could not be placed)
+        self.unit_wide = False
 
 
 def run_unit(unit, repo, workdir, variables=None, rlimit=None, suffix=''):
+    """one verifier run; if the generated file does not COMPILE because of code inside extracted function blocks (the code left the
+    subset the unit's stubs cover), those blocks are left out and the unit is run once more, so that one such block makes only its
+    own obligations undecided instead of the whole unit's"""
+    res = _run_unit_once(unit, repo, workdir, variables, rlimit, suffix)
+    bad = getattr(res, 'compile_bad_blocks', None)
+    if bad and not (variables or {}).get('__skip_blocks__'):
+        v2 = dict(variables or {})
+        v2['__skip_blocks__'] = bad
+        res2 = _run_unit_once(unit, repo, workdir, v2, rlimit, suffix)
+        if not getattr(res2, 'compile_bad_blocks', None) and not any('verus/rustc error' in t for t in res2.tooling):
+            res2.wall_s += res.wall_s
+            return res2
+    return res
+
+
+def _run_unit_once(unit, repo, workdir, variables=None, rlimit=None, suffix=''):
     res = UnitResult(unit + suffix)
     t0 = time.time()
     with open(os.path.join(UNITS_DIR, unit + '.rs')) as f:
@@ -59,6 +78,7 @@ def run_unit(unit, repo, workdir, variables=None, rlimit=None, suffix=''):
         gen = template.generate(repo, tmpl, variables)
     except (LostAnchor, template.TemplateError, Exception) as e:  # noqa
         res.status = 'tooling'
+        res.unit_wide = True
         res.tooling.append(f'extraction failed: {type(e).__name__}: {e}')
         res.wall_s = time.time() - t0
         return res
@@ -81,6 +101,7 @@ def run_unit(unit, repo, workdir, variables=None, rlimit=None, suffix=''):
         p = subprocess.run(cmd, cwd=workdir, capture_output=True, text=True, timeout=900)
     except subprocess.TimeoutExpired:
         res.status = 'tooling'
+        res.unit_wide = True
         res.tooling.append('verus timed out (900 s)')
         res.wall_s = time.time() - t0
         return res
@@ -123,6 +144,7 @@ def run_unit(unit, repo, workdir, variables=None, rlimit=None, suffix=''):
             res.obligations[t_] = {'status': 'undecided', 'msg': 'lost anchor: ' + msg_, 'fn': label, 'line': 0, 'contract': ''}
     lost_names = {t_ for _, _, tags_ in gen.lost for t_ in tags_} | {f'{unit}.{label}.body' for label, _, _ in gen.lost}
     compile_failed = False
+    compile_blocks, compile_outside = {}, False
     for d in diags:
         if d.get('level') != 'error':
             continue
@@ -137,6 +159,16 @@ def run_unit(unit, repo, workdir, variables=None, rlimit=None, suffix=''):
         if not spans or not (is_verif or is_rlimit):
             compile_failed = True
             res.tooling.append('verus/rustc error: ' + (d.get('rendered') or msg)[:600])
+            # which extracted function block does the error sit in (if any)?
+            reg_ = None
+            for s_ in prim:
+                reg_ = gen.region_of(s_['line_start'])
+                if reg_:
+                    break
+            if reg_ and reg_[3] in ('item', 'slice'):
+                compile_blocks[reg_[2]] = msg[:200]
+            else:
+                compile_outside = True
             continue
         # choose the tag: prefer a tagged line among all spans (failed clause), else the region
         tag = None
@@ -154,6 +186,7 @@ def run_unit(unit, repo, workdir, variables=None, rlimit=None, suffix=''):
                                'rendered': (d.get('rendered') or '')[:1500]})
         if is_rlimit:
             res.tooling.append(f'resource limit in {reg[2] if reg else "?"}: {msg}')
+            res.unit_wide = True
             continue
         if tag and tag.startswith('canary.'):
             res.canaries[tag] = True
@@ -163,6 +196,7 @@ def run_unit(unit, repo, workdir, variables=None, rlimit=None, suffix=''):
             if tag:
                 res.obligations[tag].update(status='undecided', msg=msg)
             res.tooling.append(f'failure outside extracted code (line {prim[0]["line_start"]}): {msg}')
+            res.unit_wide = True
             continue
         if tag is None:
             tag = f'{unit}.{reg[2]}.body'
@@ -180,6 +214,7 @@ def run_unit(unit, repo, workdir, variables=None, rlimit=None, suffix=''):
         ob['msg'] = msg + ' @ generated line %d: %s' % (prim[0]['line_start'], gen.lines[prim[0]['line_start'] - 1].strip()[:200])
         ob['rendered'] = (d.get('rendered') or '')[:3000]
     if out is None and not diags:
+        res.unit_wide = True
         res.tooling.append('verus produced no parsable output: ' + p.stderr[-800:])
     if out is not None:
         vr = out.get('verification-results', {})
@@ -197,10 +232,13 @@ def run_unit(unit, repo, workdir, variables=None, rlimit=None, suffix=''):
                 ob['time_ms'] = fn_ms[ob['fn'].split('::')[-1]]
     else:
         compile_failed = True
+    if compile_blocks and not compile_outside:
+        res.compile_bad_blocks = compile_blocks
     if compile_failed or res.tooling:
         res.status = 'tooling'
         # obligations not positively failed are undecided when the file did not compile
         if compile_failed:
+            res.unit_wide = True
             for ob in res.obligations.values():
                 if ob['status'] == 'discharged':
                     ob['status'] = 'undecided'
@@ -210,6 +248,7 @@ def run_unit(unit, repo, workdir, variables=None, rlimit=None, suffix=''):
     for c, fired in res.canaries.items():
         if not fired and res.status == 'ok':
             res.status = 'tooling'
+            res.unit_wide = True
             res.tooling.append(f'canary {c} did not fail: the verifier accepted a false statement (vacuity)')
     return res
 
@@ -232,10 +271,12 @@ def run_unit_with_vacuity(unit, repo, workdir):
         res.canaries[k] = reachable
         if not reachable and vac.status == 'ok':
             res.status = 'tooling'
+            res.unit_wide = True
             res.tooling.append(f'vacuity: body of {k[4:]} is unreachable under its precondition/axioms (assert(false) was accepted)')
     if vac.status != 'ok' and res.status == 'ok' and not probes:
         res.tooling.append('vacuity run failed: ' + '; '.join(vac.tooling)[:300])
         res.status = 'tooling'
+        res.unit_wide = True
     for k in list(res.obligations):
         if k.startswith('vac.'):
             del res.obligations[k]
